@@ -293,4 +293,28 @@ def run (limit : Nat) : Conn → List (Op × List Nat) → List (Op × Obs)
   | _, [] => []
   | c, (op, env) :: r => let (c', ob) := step limit c op env; (op, ob) :: run limit c' r
 
+/-- The connection after a script (same fold as `run`). -/
+def runState (limit : Nat) : Conn → List (Op × List Nat) → Conn
+  | c, [] => c
+  | c, (op, env) :: r => runState limit (step limit c op env).1 r
+
+/-! ### the plain round trip, spelled out -/
+
+/-- A fresh connection whose transport has received the given segments, in order. -/
+def fed (segs : List Bytes) : Conn := segs.foldl (fun c b => { c with tr := c.tr.feed b }) Conn.new
+
+/-- `n` successive blocking `ReadNext` calls; what each one returned. -/
+def readMany (limit : Nat) : List (List Nat) → Nat → Conn → List RStat
+  | _, 0, _ => []
+  | envs, n + 1, c =>
+      (readNext limit false (envs.headD []) c).2.stat :: readMany limit envs.tail n (readNext limit false (envs.headD []) c).1
+
+/-- One blocking `WriteNext` per payload; the observations. -/
+def writeMany (limit : Nat) : List Nat → Conn → List Bytes → List WObs
+  | _, _, [] => []
+  | sl, c, p :: ps => (writeNext limit (sl.headD 0) c p).2 :: writeMany limit sl.tail (writeNext limit (sl.headD 0) c p).1 ps
+
+/-- Everything the raw peer received during a list of write observations. -/
+def sent (os : List WObs) : Bytes := (os.map (·.out)).flatten
+
 end Sonic.Model.FrameCodec
